@@ -22,6 +22,8 @@
 #include <dune/common/dynmatrix.hh>
 #include <dune/common/dynvector.hh>
 #include <dune/common/diagonalmatrix.hh>
+#include <dune/common/scalarmatrixview.hh>
+#include <utility>
 #include <dune/common/exceptions.hh>
 
 using namespace Dune;
@@ -58,6 +60,35 @@ static std::string run_dense(M& A, VX& x, V& b, const std::string& op, int n, in
   std::ostringstream o;
   if (fill) for (int i = 0; i < n; i++) for (int j = 0; j < n; j++) A[i][j] = GFp(v[i * n + j]);
   if (op == "seq") return run_seq(A, x, b, n, piv, v);
+  if (op == "solvealias") {                         // A.solve(x, x): the right-hand side IS the result vector
+    for (int i = 0; i < n; i++) x[i] = GFp(v[n * n + i]);
+    const M& Ac = A; const VX& xc = x;
+    try { Ac.solve(x, xc, piv != 0); o << "OK"; for (int i = 0; i < n; i++) o << " " << x[i].v; }
+    catch (FMatrixError&) { o << "EXC FMatrixError"; }
+    catch (C02DivByZero&) { o << "EXC DivByZero"; }
+    o << " | " << (sameM(A, v, n) ? "U" : "MOD");
+    return o.str();
+  }
+  if (op == "solverow") {                           // A.solve(x, A[0]): the right-hand side is a sub-object (row 0) of the receiver
+    for (int i = 0; i < n; i++) x[i] = GFp(0);
+    const M& Ac = A;
+    try { Ac.solve(x, Ac[0], piv != 0); o << "OK"; for (int i = 0; i < n; i++) o << " " << x[i].v; }
+    catch (FMatrixError&) { o << "EXC FMatrixError"; }
+    catch (C02DivByZero&) { o << "EXC DivByZero"; }
+    o << " | " << (sameM(A, v, n) ? "U" : "MOD");
+    return o.str();
+  }
+  if (op == "seqthrow") {                           // history: invert (may throw), then determinant and solve on the SAME object
+    for (int i = 0; i < n; i++) { b[i] = GFp(v[n * n + i]); x[i] = GFp(0); }
+    try { A.invert(piv != 0); o << "OK"; for (int i = 0; i < n; i++) for (int j = 0; j < n; j++) o << " " << A[i][j].v; }
+    catch (FMatrixError&) { o << "EXC FMatrixError " << (sameM(A, v, n) ? "U" : "MOD"); }
+    catch (C02DivByZero&) { o << "EXC DivByZero " << (sameM(A, v, n) ? "U" : "MOD"); }
+    o << " ;";
+    try { GFp d = A.determinant(piv != 0); o << " OK " << d.v; } catch (FMatrixError&) { o << " EXC FMatrixError"; } catch (C02DivByZero&) { o << " EXC DivByZero"; }
+    o << " ;";
+    try { A.solve(x, b, piv != 0); o << " OK"; for (int i = 0; i < n; i++) o << " " << x[i].v; } catch (FMatrixError&) { o << " EXC FMatrixError"; } catch (C02DivByZero&) { o << " EXC DivByZero"; }
+    return o.str();
+  }
   if (op == "solve") {
     for (int i = 0; i < n; i++) { b[i] = GFp(v[n * n + i]); x[i] = GFp(0); }
     const M& Ac = A; const V& bc = b;
@@ -102,6 +133,49 @@ template<int n> static std::string run_Y(const std::string& op, int piv, const V
   DynamicMatrix<GFp> A0; A0 = Fm; DynamicMatrix<GFp> A(A0); FieldVector<GFp, n> x; DynamicVector<GFp> b(n);
   return run_dense(A, x, b, op, n, piv, v, false);
 }
+// kind Z: FieldMatrix after self-assignment, move construction, move assignment and std::swap with another matrix
+template<int n> static std::string run_Z(const std::string& op, int piv, const VL& v)
+{
+  FieldMatrix<GFp, n, n> A0, other(GFp(1));
+  for (int i = 0; i < n; i++) for (int j = 0; j < n; j++) A0[i][j] = GFp(v[i * n + j]);
+  A0 = *&A0;                                   // self-assignment
+  FieldMatrix<GFp, n, n> A1(std::move(A0));    // move construction
+  FieldMatrix<GFp, n, n> A2; A2 = std::move(A1); // move assignment
+  using std::swap; swap(A2, other);            // swap: `other` now holds the matrix
+  FieldMatrix<GFp, n, n>& A = other; FieldVector<GFp, n> x, b;
+  return run_dense(A, x, b, op, n, piv, v, false);
+}
+// kind W: the same for DynamicMatrix
+static std::string run_W(const std::string& op, int n, int piv, const VL& v)
+{
+  DynamicMatrix<GFp> A0(n, n), other(n, n, GFp(1));
+  for (int i = 0; i < n; i++) for (int j = 0; j < n; j++) A0[i][j] = GFp(v[i * n + j]);
+  A0 = *&A0;
+  DynamicMatrix<GFp> A1(std::move(A0));
+  DynamicMatrix<GFp> A2; A2 = std::move(A1);
+  using std::swap; swap(A2, other);
+  DynamicVector<GFp> x(n), b(n);
+  return run_dense(other, x, b, op, n, piv, v, false);
+}
+// kind R: a DynamicMatrix with a HISTORY: used as a 3x3 matrix (determinant, invert), then resize(n,n), refilled, used again
+static std::string run_R(const std::string& op, int n, int piv, const VL& v)
+{
+  DynamicMatrix<GFp> A(3, 3, GFp(0));
+  A[0][0] = GFp(1); A[1][1] = GFp(2); A[2][2] = GFp(3); A[0][2] = GFp(1);
+  volatile long sink = A.determinant().v; (void)sink;
+  try { A.invert(); } catch (...) {}
+  A.resize(n, n);
+  DynamicVector<GFp> x(n), b(n);
+  return run_dense(A, x, b, op, n, piv, v);
+}
+// kind V: Impl::ScalarMatrixView<GFp> (a 1x1 DenseMatrix viewing a scalar) as receiver
+static std::string run_V(const std::string& op, int piv, const VL& v)
+{
+  GFp s(v[0]); auto A = Impl::asMatrix(s); FieldVector<GFp, 1> x, b;
+  std::string r = run_dense(A, x, b, op, 1, piv, v, false);
+  if (op == "invert" && r.substr(0, 2) == "OK" && !(s.v == A[0][0].v)) r += " VIEW-DETACHED";
+  return r;
+}
 template<int r, int c> static std::string run_nsqF()
 {
   FieldMatrix<GFp, r, c> A(GFp(1)); DynamicVector<GFp> x(c), b(r);   // (FieldVectors of the two different sizes do not compile in solve)
@@ -140,6 +214,13 @@ template<int n> static std::string run_G(const std::string& op, const VL& v)
       try { Ac.solve(x, bc); o << "OK"; for (int i = 0; i < n; i++) o << " " << x[i].v; }
       catch (C02DivByZero&) { o << "EXC DivByZero"; }
       o << " | " << ((unch() && sameV(b, v, n, n)) ? "U" : "MOD");
+    } else if (op == "solvedyn" || op == "solvealias") {   // V = DynamicVector; and A.solve(x, x)
+      DynamicVector<GFp> xd(n), bd(n);
+      for (int i = 0; i < n; i++) { bd[i] = GFp(v[n + i]); xd[i] = (op == "solvealias") ? GFp(v[n + i]) : GFp(0); }
+      const DiagonalMatrix<GFp, n>& Ac = A; const DynamicVector<GFp>& bc = (op == "solvealias") ? xd : bd;
+      try { Ac.solve(xd, bc); o << "OK"; for (int i = 0; i < n; i++) o << " " << xd[i].v; }
+      catch (C02DivByZero&) { o << "EXC DivByZero"; }
+      o << " | " << (unch() ? "U" : "MOD");
     } else if (op == "det") {
       const DiagonalMatrix<GFp, n>& Ac = A;
       GFp d = Ac.determinant(); o << "OK " << d.v << " | " << (unch() ? "U" : "MOD");
@@ -156,6 +237,11 @@ template<int n> static std::string run_H(const std::string& op, const VL& v)
   for (int i = 0; i < n; i++) for (int j = 0; j < n; j++) { A[i][j] = GFp(v[i * n + j]); B[i][j] = GFp(0); }
   std::ostringstream o;
   const FieldMatrix<GFp, n, n>& Ac = A;
+  if (op == "hinvalias") {                          // invertMatrix(M, M): outside the documented contract, observed only
+    try { GFp d = FMatrixHelp::invertMatrix(Ac, A); o << "OK " << d.v << " ;"; for (int i = 0; i < n; i++) for (int j = 0; j < n; j++) o << " " << A[i][j].v; }
+    catch (FMatrixError&) { o << "EXC FMatrixError"; } catch (C02DivByZero&) { o << "EXC DivByZero"; }
+    return o.str();
+  }
   try {
     GFp d = (op == "hinv") ? FMatrixHelp::invertMatrix(Ac, B) : FMatrixHelp::invertMatrix_retTransposed(Ac, B);
     o << "OK " << d.v << " ;";
@@ -179,13 +265,21 @@ int main(int argc, char** argv)
     VL v; long t; while (s >> t) v.push_back(t);
     GFp::P = p;
     std::string r = "BAD-CASE";
-    size_t need = (kind == "G") ? (op == "solve" ? 2 * n : n) : ((op == "solve" || op == "seq") ? n * n + n : n * n);
+    bool rhs = (op == "solve" || op == "seq" || op == "solvealias" || op == "seqthrow" || op == "solvedyn");
+    size_t need = (kind == "G") ? (rhs ? 2 * n : n) : (rhs ? n * n + n : n * n);
     if (op == "nsq" && kind == "F") {
       if (n == 2 && piv == 3) r = run_nsqF<2, 3>(); else if (n == 3 && piv == 2) r = run_nsqF<3, 2>();
       else if (n == 1 && piv == 2) r = run_nsqF<1, 2>(); else if (n == 4 && piv == 5) r = run_nsqF<4, 5>(); }
     else if (op == "nsq") r = run_nsq(n, piv);
     else if (v.size() != need || n < 1) r = "BAD-CASE";
     else if (kind == "D") r = run_D(op, n, piv, v);
+    else if (kind == "W") r = run_W(op, n, piv, v);
+    else if (kind == "R") r = run_R(op, n, piv, v);
+    else if (kind == "V") r = (n == 1) ? run_V(op, piv, v) : "BAD-CASE";
+    else if (kind == "Z") switch (n) {
+      case 1: r = run_Z<1>(op, piv, v); break; case 2: r = run_Z<2>(op, piv, v); break;
+      case 3: r = run_Z<3>(op, piv, v); break; case 4: r = run_Z<4>(op, piv, v); break;
+      case 5: r = run_Z<5>(op, piv, v); break; case 6: r = run_Z<6>(op, piv, v); break; }
     else if (kind == "F") switch (n) {
       case 1: r = run_F<1>(op, piv, v); break; case 2: r = run_F<2>(op, piv, v); break;
       case 3: r = run_F<3>(op, piv, v); break; case 4: r = run_F<4>(op, piv, v); break;
